@@ -49,6 +49,52 @@ pub fn b3_value(tag: &str, k: usize) -> String {
         _ => String::new(),
     }
 }
+/// values at the minimum and maximum documented length of each block-3 tag (label, value)
+pub fn b3_boundary_values(tag: &str) -> Vec<(String, String)> {
+    let x = |n: usize| -> String { "AB1 cd2-EF3.gh4/IJ5,kl6(MN7)op8+QR9".chars().cycle().skip(0).take(n).collect::<String>().trim().replace("  ", " x") };
+    let fill = |n: usize| -> String {
+        let mut v = x(n);
+        while v.chars().count() < n {
+            v.push('Z');
+        }
+        v
+    };
+    let mut out: Vec<(String, String)> = Vec::new();
+    match tag {
+        "108" | "424" => {
+            out.push(("len=1".into(), "M".into()));
+            out.push(("len=16".into(), fill(16)));
+        }
+        "119" => {
+            out.push(("len=1".into(), "S".into()));
+            out.push(("len=8".into(), "ABCD1234".into()));
+        }
+        "115" => {
+            out.push(("len=1".into(), "A".into()));
+            out.push(("len=32".into(), fill(32)));
+        }
+        "165" => {
+            out.push(("info=1".into(), "ABC/R".into()));
+            out.push(("info=20".into(), format!("ABC/{}", fill(20))));
+            out.push(("info=21".into(), format!("ABC/{}", fill(21))));
+            out.push(("info=34".into(), format!("ABC/{}", fill(34))));
+        }
+        "433" | "434" => {
+            out.push(("info=1".into(), "AOK/S".into()));
+            out.push(("info=20".into(), format!("FPO/{}", fill(20))));
+        }
+        "423" => {
+            out.push(("no-hundredths".into(), "250131235959".into()));
+            out.push(("hundredths".into(), "25013123595999".into()));
+        }
+        "111" => {
+            out.push(("000".into(), "000".into()));
+            out.push(("999".into(), "999".into()));
+        }
+        _ => {}
+    }
+    out
+}
 pub const B3_TAGS: &[&str] = &["103", "113", "108", "119", "423", "106", "424", "111", "121", "115", "165", "433", "434"];
 /// block-5 tags the parser recognises (by the struct documentation) with example values
 pub const B5_TAGS: &[&str] = &["CHK", "TNG", "PDE", "DLM", "MRF", "PDM", "SYS", "MAC"];
@@ -223,6 +269,18 @@ pub fn run(cfg: &Config) -> i32 {
         let b2 = if si % 2 == 0 { block2_input(mt, si, [17, 18, 21][si % 3]) } else { block2_output(mt, si, [46, 47][si % 2]) };
         let text = assemble(&block1(si, si % 5 == 0), &b2, b3o, b4, Some(&format!("{{CHK:{}}}", b5_value("CHK", si))));
         cases.push(Case::WellFormed { label: format!("block3-subset:{s:013b}"), text });
+    }
+    // (1b) every block-3 tag alone with values at its minimum and maximum documented length
+    for (ti, t) in B3_TAGS.iter().enumerate() {
+        for (lab, val) in b3_boundary_values(t) {
+            let (mt, b4) = &bodies[ti % nb];
+            for output in [false, true] {
+                let b2 = if output { block2_output(mt, ti, 47) } else { block2_input(mt, ti, 17) };
+                let b3 = format!("{{{t}:{val}}}");
+                let text = assemble(&block1(ti, false), &b2, Some(&b3), b4, Some("{CHK:123456789ABC}"));
+                cases.push(Case::WellFormed { label: format!("block3-boundary:{t}:{lab}"), text });
+            }
+        }
     }
     // (2) all subsets of the 8 block-5 tags
     for s in 0u32..256 {
